@@ -64,6 +64,7 @@ def rule_map(c: Ctx) -> RuleResult:
     r = RuleResult("MAP", "a block token's map is [the rule's start line, the cursor it returns with]; placeholder ends are patched "
                           "on every path")
     nstores = 0
+    c = c.normalised("rules_block/")          # private helpers of the block rules inlined (sa/inline.py)
     for f in sorted(c.cg.parse_phase(), key=lambda x: x.qual):
         if not (f.module.rel.startswith("rules_block/") or f.module.rel == "rules_core/block.py"):
             continue
